@@ -34,6 +34,10 @@ func (r *verifChunks) Read(p []byte) (int, error) {
 		if r.pos < r.split && r.pos+n > r.split {
 			n = r.split - r.pos
 		}
+	case 3:
+		if n > 65536 {
+			n = 65536
+		}
 	}
 	copy(p, r.data[r.pos:r.pos+n])
 	r.pos += n
@@ -480,4 +484,58 @@ func VerifC13_stream() {
 	} else {
 		verifReach("error")
 	}
+}
+
+// VerifC12_bigblob: blob strings around and beyond the decoder's 1 MiB up-front allocation cap,
+// delivered in pieces: the payload must be reassembled exactly. Bytes at the start, around the
+// 1 MiB boundary and at the end are symbolic, the rest is a fixed filler.
+func VerifC12_bigblob() {
+	const cap1 = 1 << 20
+	n := []int{cap1 - 1, cap1, cap1 + 1, cap1 + 1000, 2*cap1 + 7}[verifChoose(5)]
+	payload := make([]byte, n)
+	for i := range payload {
+		payload[i] = 'f'
+	}
+	marks := []int{0, cap1 - 1, cap1, cap1 + 1, n - 1}
+	for _, i := range marks {
+		if i >= 0 && i < n {
+			payload[i] = verifNondetByte()
+		}
+	}
+	hdr := "$" + strconv.Itoa(n) + "\r\n"
+	data := append([]byte(hdr), payload...)
+	data = append(data, '\r', '\n', ':', '7', '\r', '\n')
+	src := &verifChunks{data: data, mode: 2}
+	// one split point: before, at and after the cap, and near the end; or fixed-size segments
+	switch verifChoose(6) {
+	case 0:
+		src.mode = 0
+	case 1:
+		src.split = len(hdr) + cap1 - 5
+	case 2:
+		src.split = len(hdr) + cap1
+	case 3:
+		src.split = len(hdr) + cap1 + 3
+	case 4:
+		src.split = len(hdr) + n - 2
+	default:
+		src.mode = 3 // 64 KiB segments
+	}
+	if src.mode == 2 && src.split >= len(data) {
+		src.mode = 0
+	}
+	r := bufio.NewReaderSize(src, 4096)
+	m, err := readNextMessage(r)
+	verifAssert(err == nil && m.typ == typeBlobString, "large blob decodes")
+	s := m.string()
+	verifAssert(len(s) == n, "large blob has its declared length")
+	for _, i := range marks {
+		if i >= 0 && i < n {
+			verifAssert(s[i] == payload[i], "large blob bytes are reassembled at the right offsets")
+		}
+	}
+	verifAssert(s[n/2] == 'f' && s[n-2] == payload[n-2], "filler intact")
+	m2, err := readNextMessage(r)
+	verifAssert(err == nil && m2.typ == typeInteger && m2.intlen == 7, "the frame after a large blob decodes independently")
+	verifReach("big")
 }
